@@ -275,7 +275,7 @@ def sem : Nat → Ctx → Task → Env → Res
     | .pipe x y =>
       -- each stage in its own subshell; only the last stage's output reaches stdout here
       -- (skeleton stages never read their input)
-      match sem n { k with ign := true, depth := 0 } (.sub (.cons x .nil)) (subEnv e []) with
+      match sem n { k with depth := 0 } (.sub (.cons x .nil)) (subEnv e []) with
       | none => none
       | some (_, e1) =>
         match sem n { k with depth := 0 } (.sub (.cons y .nil)) (subEnv e e.out) with
